@@ -178,11 +178,15 @@ def gen_cases(tier):
                     for others in ((0, 2) if kind != "values" else (0,)):
                         cases.append({"layer": "grid", "kind": kind, "route": route, "setting": s,
                                       "prev": prev, "others": others})
-    depth = 4 if tier == "quick" else 5
+    depth = 4 if tier == "quick" else 6
     for kind in KINDS:
         for start in (0, 2):
             for others in ((0, 1) if kind != "values" else (0,)):
-                cases.append({"layer": "history", "kind": kind, "start": start, "depth": depth, "others": others})
+                for n in range(1, depth + 1):
+                    for first in range(len(HIST_OPS)):
+                        # one case = all histories of length n that begin with operation `first`
+                        cases.append({"layer": "history", "kind": kind, "start": start, "depth": n, "first": first,
+                                      "others": others})
     for kind in KINDS:
         for card in normal_forms(3):
             for fmt in ("XML", "JSON", "YAML"):
@@ -307,8 +311,9 @@ def run_history(case):
     fails, execs, nontrivial = [], 0, 0
     outcomes = set()
     seen_fail = set()
-    for n in range(1, case["depth"] + 1):
-        for seq in itertools.product(range(len(HIST_OPS)), repeat=n):
+    for n in (case["depth"],):
+        for rest in itertools.product(range(len(HIST_OPS)), repeat=n - 1):
+            seq = (case["first"],) + rest
             obj = make(kind, case["start"])
             serial = [100]
             ok = True
@@ -424,7 +429,7 @@ def check(tier):
         "0 and None are the same minimum",
     ])
     cases = gen_cases(tier)
-    run.bounds = {"grid": "complete", "history_depth": 4 if tier == "quick" else 5,
+    run.bounds = {"grid": "complete", "history_depth": 4 if tier == "quick" else 6,
                   "persisted_bounds_up_to": 3, "child_counts": "0..5"}
     for layer in ("grid", "history", "persist"):
         run.layer(layer, cases=sum(1 for c in cases if c["layer"] == layer))
